@@ -34,16 +34,25 @@ def make_module(rng, nf):
             body = [["i32.const", b32(200)], ["i32.const", b32(1)], ["i32.const", b32(3)], ["memory.init", 1], ["i32.const", b32(200)], ["i32.load", 0, 0],
                     ["local.get", 0], ["i32.add"], ["end"]]
         elif kind == 3:
-            body = [["local.get", 0], ["call", 1 + (k + 1) % nf if (k + 1) % nf % 5 == 0 else 1], ["i32.const", b32(3)], ["i32.mul"], ["end"]]
+            # the imported function and a defined one are also reached through the table (element segment referencing an import)
+            body = [["local.get", 0], ["i32.const", b32(0)], ["call_indirect", 1, 0],
+                    ["local.get", 0], ["call", 1 + (k + 1) % nf if (k + 1) % nf % 5 == 0 else 1], ["i32.const", b32(1)], ["call_indirect", 0, 0],
+                    ["i32.const", b32(3)], ["i32.mul"], ["end"]]
         else:
             body = [["local.get", 0], ["i32.const", b32(7)], ["i32.xor"], ["end"]]      # identical bodies for every kind-4 function
         funcs.append({"type": 0, "locals": [[], [["i32", 1]], [["i32", 1], ["i64", 2]], [["f64", 1], ["i32", 2], ["i64", 1]]][(k // 5 + kind) % 4] if kind not in (1, 4)
                       else [["i32", 1]], "body": body})
     m = {"types": types, "imports": [{"mod": "env", "name": "note", "kind": "func", "type": 1, "ret": []}], "funcs": funcs,
          "memory": {"min": 1, "max": 2},
-         "data": [{"mode": "active", "offset": ["i32.const", b32(300)], "bytes": [9, 8, 7]}, {"mode": "passive", "bytes": [0x11, 0x22, 0x33, 0x44, 0x55]}],
+         # active and passive segments interleaved (offsets into an external blob must count every segment)
+         "data": [{"mode": "active", "offset": ["i32.const", b32(300)], "bytes": [9, 8, 7]}, {"mode": "passive", "bytes": [0x11, 0x22, 0x33, 0x44, 0x55]},
+                  {"mode": "active", "offset": ["i32.const", b32(308)], "bytes": [0xA1, 0xA2, 0xA3, 0xA4, 0xA5, 0xA6]}, {"mode": "passive", "bytes": [0x66]},
+                  {"mode": "active", "offset": ["i32.const", b32(320)], "bytes": [0xB1, 0xB2]}],
          "datacount": True,
-         "exports": [{"name": "fn%d" % k, "kind": "func", "idx": 1 + k} for k in range(nf)] + [{"name": "memory", "kind": "memory", "idx": 0}],
+         "table": {"min": 2, "max": 2}, "elems": [{"offset": ["i32.const", b32(0)], "funcs": [0, 1]}],
+         # the import is re-exported, too
+         "exports": [{"name": "fn%d" % k, "kind": "func", "idx": 1 + k} for k in range(nf)] + [{"name": "memory", "kind": "memory", "idx": 0},
+                                                                                              {"name": "renote", "kind": "func", "idx": 0}],
          "names": {str(1 + k): "func_%d" % k for k in range(nf)}}
     m["names"]["0"] = "host_note"
     return m
@@ -306,7 +315,8 @@ def main():
                                               for k in range(6) for x in (0, 5, 0xFFFFFFFF)]})
         builds = []
         for o in [{"t": 1, "f": 0, "p": False, "g": False, "m": False, "d": "arrays", "r": False}, {"t": 3, "f": 1, "p": True, "g": True, "m": True, "d": "arrays", "r": False},
-                  {"t": 2, "f": 2, "p": False, "g": False, "m": False, "d": "arrays", "r": False}, {"t": 64, "f": 4, "p": True, "g": False, "m": True, "d": "arrays", "r": False}]:
+                  {"t": 2, "f": 2, "p": False, "g": False, "m": False, "d": "arrays", "r": False}, {"t": 64, "f": 4, "p": True, "g": False, "m": True, "d": "arrays", "r": False},
+                  {"t": 1, "f": 0, "p": False, "g": False, "m": False, "d": "gnu-ld", "r": False}, {"t": 3, "f": 2, "p": True, "g": False, "m": True, "d": "gnu-ld", "r": False}]:
             builds.append({"name": "opts" + "".join(optvec_argv(o)), "cc": "gcc", "cflags": ("-O1",), "w2c2_opts": tuple(optvec_argv(o)),
                            "batch": 1, "localize": False})
         st, exp = machine.replay(v, items, builds,
